@@ -375,7 +375,21 @@ func (w *c14World) exec(tr *c14Track, op c14Op, hist []c14Op, emit bool) {
 		return
 	case "delproof": // the reward block dropping the prover: listing and record go together
 		if f, found := k.GetFile(e.Ctx, mb, op.Owner, op.Start); found {
-			f.RemoveProver(e.Ctx, k, op.Prover)
+			cctx, write := e.Ctx.CacheContext()
+			if pn := Guard(func() { f.RemoveProver(cctx, k, op.Prover) }); pn == "" {
+				write()
+			} else {
+				// (a list that names the prover twice — planted by "setfile", not reachable — makes the helper panic)
+				keep := []string{}
+				for _, key := range f.Proofs {
+					if key != f.MakeProofKey(op.Prover) {
+						keep = append(keep, key)
+					}
+				}
+				f.Proofs = keep
+				k.SetFile(e.Ctx, f)
+				k.RemoveProof(e.Ctx, op.Prover, mb, op.Owner, op.Start)
+			}
 		}
 		r.Hist("ops", "env-delproof")
 		return
